@@ -4,6 +4,7 @@
 -/
 import PcVerif.Model.Scc.Finish
 import PcVerif.Lemmas.RollupLemmas
+import PcVerif.Lemmas.RollTimeLemmas
 namespace PcVerif.Props.C16
 open PcVerif PcVerif.Scc
 
@@ -253,5 +254,18 @@ theorem rollup_stream_conserves (ws : List (RollWord × Option String)) : ∀ (r
       by_cases hl : r.lastCmd = "94ad"
       · rw [word_cr_repeated_held r nxt hl]; simp
       · rw [word_cr_held r nxt hl]; simp
+
+/-- **C16 (each caption ends exactly when the next one begins).** at a roll-up carriage return the row that rolls out is
+    stored from the time of the previous carriage return to the instant of this one — all the captions made from it carry
+    exactly these two times — and that instant becomes the start of the next row -/
+theorem rollup_rows_contiguous (r : Reader) (t : Rat) (hn : timeOf r.tc r.frames r.off = some t) (hne : r.buf.isEmpty = false) :
+    (rollUp r).time = t ∧
+    ∀ i ∈ (rollUp r).S.editing, ∃ c, (rollUp r).S.stash[i]? = some c ∧ c.start = r.time ∧ c.stop = t :=
+  rollUp_contiguous r t hn hne
+
+/-- what `create_and_store` appends carries exactly the start and end it was given, whatever the buffer holds -/
+theorem stored_captions_carry_times (S : Stash) (c : Creator) (start stop : Rat) (hne : c.isEmpty = false) :
+    ∀ i ∈ (store S c start stop).editing, ∃ cap, (store S c start stop).stash[i]? = some cap ∧ cap.start = start ∧ cap.stop = stop :=
+  store_new_times S c start stop hne
 
 end PcVerif.Props.C16
